@@ -15,7 +15,7 @@ UNION_SCHEMAS = ["union_recs_by_ref", "union_nested_arrays", "union_prims", "uni
 QUICK = ["union_prims", "union_two_recs", "union_named_mix", "union_float_double", "union_overlap", "union_recs_by_ref",
          "union_nested_arrays",
          "union_in_array_named", "union_map_rec", "pair_union_record", "pair_array_union", "rec_list",
-         "chain_rec_union_rec_arr", "union_arr_map"]
+         "chain_rec_union_rec_arr", "union_arr_map", "union_rec_alldefault", "union_empty_rec"]
 
 
 def _written(fo):
